@@ -57,7 +57,10 @@ def configs(tier):
     c = [{"kind": "route", "min": 1.0}, {"kind": "route", "min": 5.0},
          {"kind": "route", "min": 2.0},
          {"kind": "route", "min": 5.0, "user": True},
-         {"kind": "route", "min": 1.0, "user": True}]
+         {"kind": "route", "min": 1.0, "user": True},
+         # exome-type profile names switch copy-number calling off: also on the dump route
+         {"kind": "route", "min": 1.0, "profile": "wes"},
+         {"kind": "route", "min": 2.0, "profile": "exome"}]
     for b in ("hg19", "hg38"):
         for first in range(len(c06.OPS)):
             c.append({"genome": b, "first": first, "nops": 2, "maxsz": 2, "starts": 2,
@@ -187,6 +190,8 @@ def run_route(cfg):
 
     extra = {"display_format": True, "debug_novel": True, "max_minor_solutions": 2}
     kw = {"cn_solution": ["1", "1"], "profile_name": None} if cfg.get("user") else {}
+    if cfg.get("profile"):
+        kw = {"profile_name": cfg["profile"]}
 
     def run():
         out = {}
@@ -204,7 +209,8 @@ def run_route(cfg):
         good = out["sam"] == out["dump"] and out["sam_params"] == out["dump_params"]
         st, mdl = eng.prove([], z3.BoolVal(good))
         want = "reject" if eng.prove([], avg < cfg["min"])[0] == "unsat" else "ok"
-        ob(res, f"route/min_avg_coverage={cfg['min']}{'/user' if cfg.get('user') else ''}: "
+        ob(res, f"route/min_avg_coverage={cfg['min']}{'/user' if cfg.get('user') else ''}"
+                f"{'/' + cfg['profile'] if cfg.get('profile') else ''}: "
                 "a run from the dump accepts/rejects like the original run and the stages "
                 "see the same parameters",
            "holds" if good and out["dump"] == want else "sat")
@@ -222,7 +228,7 @@ def run_route(cfg):
                         f"parameters in force at the stages differ: {diffp}",
                 "key": "dump-route",
                 "replay": {"kind": "route", "avg": av, "min": cfg["min"],
-                           "user": bool(cfg.get("user"))}})
+                           "user": bool(cfg.get("user")), "profile": cfg.get("profile")}})
     seen = {}
     for v in res["violations"]:
         seen.setdefault(v["key"], v)
@@ -239,6 +245,8 @@ def replay_route(o):
     out = {}
     extra = {"display_format": True, "debug_novel": True, "max_minor_solutions": 2}
     kw = {"cn_solution": ["1", "1"], "profile_name": None} if o.get("user") else {}
+    if o.get("profile"):
+        kw = {"profile_name": o["profile"]}
     for kind in ("sam", "dump"):
         h = genoharness.Harness(plan, lambda k, i: 1.0, avg_cov=o["avg"], kind=kind)
         try:
